@@ -125,6 +125,9 @@ func buildState(t *keytab, spec StateSpec) (*stateRT, error) {
 			x.D.Close()
 			return nil, fmt.Errorf("step %d %s: %v", i, op, err)
 		}
+		// An ingestion that overlaps the memtable is queued as a flushable and flushed in the
+		// background: wait (clock-free) so that the state the iterators see is always the same.
+		x.D.VerifWaitIdle()
 		m.Apply(op, fmt.Sprintf("v%d", i))
 		var touched []hx.Op
 		if op.K == "ingest" {
@@ -193,12 +196,21 @@ func describe(cfg hx.Config, hist []hx.Op, from int) (sigs, classes []string, ri
 		if err := x.Apply(i, op); err != nil {
 			return nil, nil, nil, fmt.Errorf("step %d %s: %v", i, op, err)
 		}
+		x.D.VerifWaitIdle()
 		m.Apply(op, fmt.Sprintf("v%d", i))
 		switch op.K {
 		case "flush", "compact":
 			mem = mem[:0]
 		case "ingest":
-			// an ingestion that overlaps the memtable flushes it first; the shape string tells
+			// an ingestion that overlaps the memtable flushes it first
+			for _, s := range op.Sub {
+				for _, w := range mem {
+					if strings.Contains(w, " "+s.Key) {
+						mem = mem[:0]
+						break
+					}
+				}
+			}
 		default:
 			mem = append(mem, op.String())
 		}
